@@ -370,7 +370,7 @@ class FullEngine(Engine):
     def ref_of(self, v):
         if isinstance(v, VMeta):
             return v.term
-        if isinstance(v, (VRef, VCallback, VAttrs)):
+        if isinstance(v, (VRef, VCallback, VAttrs, VAdj)):
             return v.term
         if isinstance(v, (VList, VSet, VDict)):
             return v.ref
@@ -477,7 +477,7 @@ class FullEngine(Engine):
             if attr == "_SemiSingleton__semisingleton_hashfunc":
                 return [(p, VCallback(T.hf_of(recv.term), "hf"))]
             raise Unsupported(f"metaclass attribute {attr}")
-        if isinstance(recv, (VList, VSet, VDict, VOwned, VSeq, VGlobalDict, VStr, VOpaque, VAttrs)):
+        if isinstance(recv, (VList, VSet, VDict, VOwned, VSeq, VGlobalDict, VStr, VOpaque, VAttrs, VAdj)):
             return [(p, VBound(recv, attr))]
         if isinstance(recv, VConst) and isinstance(recv.value, tuple) and recv.value[0] in ("memo", "dyndict", "pydict"):
             return [(p, VBound(recv, attr))]
@@ -1270,7 +1270,7 @@ class FullEngine(Engine):
 
     def typing_facts(self, prm: Param, v: V):
         ty = prm.ty
-        if ty in ("int", "bool", "str", "any", "attrs", "cls", "clsopt", "pack") or ty.startswith("cb:") or ty.startswith("iter") or ty.startswith("dict") or ty.startswith("list:"):
+        if ty in ("int", "bool", "str", "any", "attrs", "cls", "clsopt", "pack", "adj") or ty.startswith("cb:") or ty.startswith("iter") or ty.startswith("dict") or ty.startswith("list:"):
             return []
         if ty.startswith("cls<="):
             if isinstance(v, VCls):
@@ -1424,6 +1424,8 @@ class FullEngine(Engine):
             if name == "pop" and len(args) == 2 and isinstance(args[0], VStr):
                 p.st.write("dyn_has", (recv.value[1], args[0].term), z3.BoolVal(False))
                 return [(p, VOpaque("popped"))]
+        if isinstance(recv, VAdj) and name == "items" and not args:
+            return [(p, VConst(("adjitems", recv.term)))]
         if isinstance(recv, VAttrs) and name == "items" and not args:
             return [(p, VConst(("items", recv.term)))]
         if isinstance(recv, VDict) and name == "items":
